@@ -186,11 +186,22 @@ def component_complex(seq, s, ids, turn=0):
     return cs, st
 
 
-def split_history(rng, s, names=("a", "b")):
+def periodic_seq(s, unit=("a", "a*", "b", "a", "b*", "b")):
+    """every strand of the same length gets the same content: the strand order is periodic wherever the lengths are, while
+    the structure need not be (rotations that agree on the sequence but not on the structure)"""
+    out = []
+    for k, strand in enumerate(s.split("+")):
+        if k:
+            out.append("+")
+        out += list(unit[: len(strand)]) + ["a"] * max(0, len(strand) - len(unit))
+    return out
+
+
+def split_history(rng, s, names=("a", "b"), seq=None):
     """a history for ComplexS.split(): some components exist beforehand (any rotation,
     explicit / automatic / clashing names), unrelated complexes, the complex itself
     named / unnamed / with a name of the automatic form"""
-    seq = gs.seq_for(rng, s, names=names)
+    seq = seq if seq is not None else gs.seq_for(rng, s, names=names)
     pre = []
     for ids in components(s):
         if rng.random() < 0.5:
